@@ -1,8 +1,123 @@
 import Oracle.Util
-/-! Oracle handlers for C18 (model functions exposed on the line protocol). -/
-namespace Oracle
-open Mobius
+import MobiusModel.News
+/-!
+  Oracle handlers for C18.  `c18run` executes a whole history on the News model
+  (`Mobius.News.step` — the definitions the theorems are about — plus the thin handler layer of
+  transaction_handlers.go) and prints one observation per operation.  The file is the tree itself
+  (`ser = id`), i.e. the YAML round-trip assumption is built in.
 
-def c18Handlers : List (String × Handler) := []
+  c18run <tokens…>          a path is `<n> <hex>*n`
+    B <path> <name>                       new bundle (381)        -> done | panic
+    C <path> <name>                       new category (382)      -> done | panic
+    P <path> <idfield> <title> <poster> <date> <body>   post / reply (410; idfield = bytes of field 326)
+                                                                  -> done | silent | panic
+    DA <path> <idfield>                   delete article (411)    -> done | silent | panic
+    DI <path>                             delete item (380)       -> done | silent
+    R                                     reload from the file    -> done | err
+    GA <path> <idfield>  /  GA2 …         get article (400) from memory / from the file as a second store loads it
+                                          -> art title poster date prev next parent first bodyLen bodySum | none | silent
+    LA <path>  /  LA2 …                   article list (371)      -> hex of field 321
+    LC <path>  /  LC2 …                   category list (370)     -> cats n hex…
+-/
+namespace Oracle
+open Mobius Mobius.News
+
+def cdO : Codec Tree := ⟨id, some⟩
+
+/-- body checksum printed instead of the (up to 64 KiB) body -/
+def cksum (b : Bytes) : Nat := b.foldl (fun h x => (h * 31 + x.toNat) % 4294967296) 7
+
+def takePath : List String → Path × List String
+  | n :: rest => ((rest.take (num n)).map hexb, rest.drop (num n))
+  | [] => ([], [])
+
+def kindStr (r : R (State Tree)) : String :=
+  match r with
+  | .ok _ => "done"
+  | .err _ => "done"      -- the handlers log the error and send the plain reply
+  | .panic _ => "panic"
+
+def artStr : Option Art → String
+  | none => "none"
+  | some a => s!"art {toHex a.title} {toHex a.poster} {toHex a.date} {a.prev} {a.next} {a.parent} {a.firstChild} {a.data.length} {cksum a.data}"
+
+def diskTree (st : State Tree) : Tree := (cdO.deser st.disk).getD AMap.empty
+
+partial def c18Loop (st : State Tree) (acc : List String) : List String → List String
+  | [] => acc.reverse
+  | "B" :: rest =>
+    let (p, r1) := takePath rest
+    match r1 with
+    | n :: r2 => let x := step cdO st (.newBundle p (hexb n)); c18Loop x.state (kindStr x :: acc) r2
+    | [] => ("bad-token" :: acc).reverse
+  | "C" :: rest =>
+    let (p, r1) := takePath rest
+    match r1 with
+    | n :: r2 => let x := step cdO st (.newCategory p (hexb n)); c18Loop x.state (kindStr x :: acc) r2
+    | [] => ("bad-token" :: acc).reverse
+  | "P" :: rest =>
+    let (p, r1) := takePath rest
+    match r1 with
+    | idf :: ti :: po :: dt :: body :: r2 =>
+      if p = [] then c18Loop st ("silent" :: acc) r2 else
+      match decodeInt (hexb idf) with
+      | .ok par =>
+        let x := step cdO st (.post p par ⟨hexb ti, hexb po, hexb dt, 0, 0, 0, 0, hexb body⟩)
+        c18Loop x.state (kindStr x :: acc) r2
+      | _ => c18Loop st ("silent" :: acc) r2
+    | _ => ("bad-token" :: acc).reverse
+  | "DA" :: rest =>
+    let (p, r1) := takePath rest
+    match r1 with
+    | idf :: r2 =>
+      match decodeInt (hexb idf) with
+      | .ok id => let x := step cdO st (.delArticle p id); c18Loop x.state (kindStr x :: acc) r2
+      | _ => c18Loop st ("silent" :: acc) r2
+    | [] => ("bad-token" :: acc).reverse
+  | "DI" :: rest =>
+    let (p, r1) := takePath rest
+    if p = [] then c18Loop st ("silent" :: acc) r1 else
+    let x := step cdO st (.delItem p); c18Loop x.state (kindStr x :: acc) r1
+  | "R" :: rest =>
+    let x := step cdO st .reload
+    c18Loop x.state ((match x with | .ok _ => "done" | _ => "err") :: acc) rest
+  | "GA" :: rest =>
+    let (p, r1) := takePath rest
+    match r1 with
+    | idf :: r2 =>
+      match decodeInt (hexb idf) with
+      | .ok id => c18Loop st (artStr (getArticle st.mem p id) :: acc) r2
+      | _ => c18Loop st ("silent" :: acc) r2
+    | [] => ("bad-token" :: acc).reverse
+  | "GA2" :: rest =>
+    let (p, r1) := takePath rest
+    match r1 with
+    | idf :: r2 =>
+      match decodeInt (hexb idf) with
+      | .ok id => c18Loop st (artStr (getArticle (diskTree st) p id) :: acc) r2
+      | _ => c18Loop st ("silent" :: acc) r2
+    | [] => ("bad-token" :: acc).reverse
+  | "LA" :: rest =>
+    let (p, r1) := takePath rest
+    c18Loop st (toHex (listArticlesField st.mem p) :: acc) r1
+  | "LA2" :: rest =>
+    let (p, r1) := takePath rest
+    c18Loop st (toHex (listArticlesField (diskTree st) p) :: acc) r1
+  | "LC" :: rest =>
+    let (p, r1) := takePath rest
+    let fs := listCatsFields st.mem p
+    c18Loop st ((s!"cats {fs.length}" ++ String.join (fs.map fun f => " " ++ toHex f)) :: acc) r1
+  | "LC2" :: rest =>
+    let (p, r1) := takePath rest
+    let fs := listCatsFields (diskTree st) p
+    c18Loop st ((s!"cats {fs.length}" ++ String.join (fs.map fun f => " " ++ toHex f)) :: acc) r1
+  | t :: _ => (("bad-token " ++ t) :: acc).reverse
+
+def c18Handlers : List (String × Handler) := [
+  ("c18run", fun (a : List String) => " | ".intercalate (c18Loop ⟨AMap.empty, AMap.empty⟩ [] a)),
+  ("c18cksum", fun (a : List String) => match a with
+    | [d] => toString (cksum (hexb d))
+    | _ => "bad-op")
+]
 
 end Oracle
